@@ -249,6 +249,17 @@ func buildHistList(seed int64, mk func(vals ...any) List) *histList {
 			h.trace = append(h.trace, "ForEach")
 			fl("ForEach", h.l.ForEach(func(int, any) {}))
 		}
+		if r.Intn(3) == 0 {
+			// call the pure observers in the middle of the history (whatever they may remember must not go stale)
+			h.trace = append(h.trace, "Observe")
+			l := h.l
+			for _, f := range []func(){func() { l.Sum() }, func() { l.Prod() }, func() { l.Avg() }, func() { l.Min() }, func() { l.Max() },
+				func() { l.IntSum() }, func() { l.IntProd() }, func() { l.IntMin() }, func() { l.IntMax() }, func() { _ = l.String() }, func() { l.FormatString(2) },
+				func() { l.Clone() }, func() { l.AllInts() }, func() { l.AllNumeric() }, func() { l.AllStrings() }, func() { l.Count() }, func() { l.Equals(l) },
+				func() { l.Slice() }, func() { l.NativeSlice() }, func() { l.IntSlice() }, func() { l.Contains(1) }, func() { l.IndexOf("s") }, func() { l.TypeOfTF("#0") }} {
+				catch(f)
+			}
+		}
 	}
 	h.id += ":" + strings.Join(h.trace, ",")
 	if len(h.id) > 150 {
@@ -382,6 +393,14 @@ func buildHistObject(seed int64, mk func(vals ...any) Object) *histObject {
 		case op == 15:
 			h.trace = append(h.trace, "ForEach")
 			fl("ForEach", h.o.ForEach(func(string, any) {}))
+		}
+		if r.Intn(3) == 0 {
+			h.trace = append(h.trace, "Observe")
+			o := h.o
+			for _, f := range []func(){func() { o.Keys() }, func() { o.Values() }, func() { _ = o.String() }, func() { o.FormatString(2) }, func() { o.Dict() }, func() { o.NativeDict() },
+				func() { o.Count() }, func() { o.Equals(o) }, func() { o.Clone() }, func() { o.Contains(1) }, func() { o.KeyExists("a") }, func() { o.TypeOfTF(".a") }, func() { o.GetTF(".a") }} {
+				catch(f)
+			}
 		}
 	}
 	h.id += ":" + strings.Join(h.trace, ",")
